@@ -104,7 +104,7 @@ func c08Perturb(p *synth.Project, i int, seed int64) string {
 		return "none"
 	}
 	s := sites[r.Intn(len(sites))]
-	switch k := i % 8; k {
+	switch k := i % 9; k {
 	case 0: // @Path without {name}
 		s.m.Params = append(s.m.Params, synth.Param{GoName: "ghost", Type: synth.Prim("string"), In: "path"})
 		p.SetFeature("path-annotation-without-template-param")
@@ -139,6 +139,13 @@ func c08Perturb(p *synth.Project, i int, seed int64) string {
 	case 5: // a header and a query parameter sharing a wire name (legal: unique per location)
 		s.m.Params = append(s.m.Params, synth.Param{GoName: "samea", Type: synth.Prim("string"), In: "query", Wire: "same"}, synth.Param{GoName: "sameb", Type: synth.Prim("string"), In: "header", Wire: "same"})
 		return "same-wire-name-different-location"
+	case 8: // a route returning an instantiated generic struct (its component is registered under another name)
+		if p.ExtraFiles == nil {
+			p.ExtraFiles = map[string]string{}
+		}
+		pkg := p.Pkg(s.c.Pkg)
+		p.ExtraFiles[pkg.Dir+"/zz_generic.go"] = "package " + pkg.Name + "\n\nimport (\n\t\"github.com/gopher-fleece/runtime\"\n)\n\ntype Envelope[T any] struct {\n\tV T `json:\"v\"`\n}\n\n// @Tag(Generic)\n// @Route(/generic)\ntype GenericCtl struct {\n\truntime.GleeceController\n}\n\n// @Method(GET)\n// @Route(/envelope)\nfunc (c *GenericCtl) ReadEnvelope() (Envelope[int], error) {\n\treturn Envelope[int]{}, nil\n}\n"
+		return "generic-instantiation-as-result"
 	case 7: // a header / query parameter that shares its wire name with a path parameter and precedes it (legal)
 		w := ""
 		for _, pr := range s.m.Params {
